@@ -277,6 +277,33 @@ func Run(r *fw.Run) {
 		}
 		r.Merge(l)
 	}
+	// call histories: every ordered pair of related inputs, back to back in one goroutine
+	{
+		l := fw.NewLocal()
+		rel := []string{"example.com/a", "example.com/A", "example.com/!a", "Example.com/a", "example.com/a!", "v1.0.0", "V1.0.0", "!v1.0.0", "v1.0.0-RC1", "v1.0.0-rc1", "v1.0.0-!r!c1", "CON", "con", "!c!o!n", "a.b/c", "A.b/C", "!a.b/!c", "", "!", "!!", "v0.0.0-20190101000000-ABCDEF123456", "v0.0.0-20190101000000-abcdef123456"}
+		r.Bounds["call_histories"] = fmt.Sprintf("all ordered pairs of %d related inputs x 4 functions", len(rel))
+		for _, a := range rel {
+			for _, b := range rel {
+				l.States++
+				l.Transitions++
+				for _, kind := range []string{"path", "version"} {
+					l.Execs += 2
+					forward(kind, a)
+					if msg, _ := forward(kind, b); msg != "" {
+						r.Violation(kind+":"+strconv.QuoteToASCII(b), "right after the same query for "+strconv.Quote(a)+": "+msg, caseT{kind, strconv.QuoteToASCII(b)})
+					}
+				}
+				for _, kind := range []string{"unpath", "unversion"} {
+					l.Execs += 2
+					backward(kind, a)
+					if msg, _ := backward(kind, b); msg != "" {
+						r.Violation(kind+":"+strconv.QuoteToASCII(b), "right after the same query for "+strconv.Quote(a)+": "+msg, caseT{kind, strconv.QuoteToASCII(b)})
+					}
+				}
+			}
+		}
+		r.Merge(l)
+	}
 	r.Extra["injectivity_table_paths"] = len(tabP)
 	r.Extra["injectivity_table_versions"] = len(tabV)
 	e, _ := module.EscapePath("a.a/BaZ")
